@@ -94,6 +94,7 @@ func C11(p *load.Prog, r *report.Report) {
 		r.Undecided("C11.model", "layout", "", err.Error())
 		return
 	}
+	m.stateGuard(r, "C11", true, false)
 	roots := sqrtMinusZ()
 	// (b) sqrt_ratio
 	if fn := p.Method(p.Field, "Element", "SqrtRatio"); fn != nil {
